@@ -14,7 +14,8 @@ LEFT = ['class', 'def', 'lambda', 'None', 'True', 'not', 'is', 'in', 'import', '
         'a b', 'a\tb', 'a,b', 'a;b', 'a=b', 'a==b', 'a->b', '@', '!', '#', '$x', '`', '\\', '\\n', 'é', 'ß', '1_000', '1__0',
         '0o8', '0b2', '९', 'a.b.c.d.e', 'roles', 'roles.x', 'x.roles', '__class__', 'a.__class__', 'True.real', '9' * 30,
         '1' * 5000, 'nan', 'inf', '-inf', '1j', '...', 'Ellipsis', 'print(1)', '__import__("os")', 'a[0]', 'a.b[0]']
-RIGHT = ['x', '%(k)s', '%(missing)s', 'pre-%(k)s-post', '%(k)s%(k2)s', '', 'True', 'None', "['a']", '1']
+RIGHT = ['x', '%(k)s', '%(missing)s', 'pre-%(k)s-post', '%(k)s%(k2)s', '', 'True', 'None', "['a']", '1',
+         '%(k.x)s', '%(k.b)s', '%(k2.b.c)s', '%(other.0)s']
 VALUES = ['s', '', 0, 1, -1, 2.5, True, False, None, [], ['a'], [[]], [['a']], [{'b': 'x'}], {}, {'b': 'x'}, {'b': None},
           {'b': ['x', {'c': 1}]}, {'b': {'c': [1, [2]]}}, [1, 's', None, {'b': 'x'}, [{'b': 'x'}]]]
 
